@@ -144,3 +144,23 @@ PROPS["C17"] = rt_prop(
     "distinct = structural classes",
     ["non-finite double parameters and datetime/token/safelong/any parameters are observed-only beyond equality with their JSON string form",
      "generated error types of random definitions are covered by the lab half when built"])
+
+PROPS["C09"] = rt_prop(
+    "runtime monitoring: taint canaries - every argument value and token is a fresh unique canary; after each request (valid, or with any subset of "
+    "arguments corrupted) every safe-to-log channel (SafeParams extension, error safe params, cause text when flagged safe) is searched for the canaries of "
+    "non-safe arguments; positive check of declared-safe arguments on success; BearerToken Debug constant",
+    "Held on every request: no canary of a non-safe argument or of the auth token appeared in a safe channel, SafeParams held only declared-safe arguments "
+    "with their values, and all of them on success.",
+    "requests rendered from a declarative wire description of 8 generated + 3 macro endpoints (every safety declaration form), 2/3 of them with 1-3 "
+    "corrupted arguments (absent, repeated, unparsable, not text, bad auth, malformed body); blocking and async; distinct = (flavour, endpoint, corruption pattern)",
+    ["the per-argument safe/non-safe table in taint.rs is derived by hand from sink-ir.json using the rules of C08",
+     "booleans, enums and datetimes carry no canary (too little entropy to track)"])
+
+PROPS["C19"] = rt_prop(
+    "runtime monitoring with fault injection: any subset of path/query/header/auth/body arguments corrupted (absent, repeated, unparsable, not valid text, "
+    "bad auth, malformed body); oracle on handler events + error kind/code + safe 'param' entry against the declared names",
+    "Held on every request after the fix commit for header names: corrupted requests never reached the handler, produced INVALID_ARGUMENT (PERMISSION_DENIED "
+    "for auth) naming a corrupted argument by its declared name; uncorrupted requests succeeded.",
+    "same workload as C09; argument names whose Rust spelling differs (camelCase -> snake_case, keywords type/match, macro log_as); distinct = (flavour, "
+    "endpoint, corruption pattern)",
+    ["when several arguments are corrupted any of them may be named; when auth/body and a parameter are both bad either error is accepted"])
